@@ -1,5 +1,5 @@
 (* RunElem.v — Validate.build on element trees given directly (DSL trees emitted by the harness). *)
-From Statham.Model Require Import Str Json Elem Validate RunHelpers.
+From Statham.Model Require Import Str Json Elem Validate RunHelpers Retr.
 
 Record ecase := mkECase {
   ec_re : list (str * list str);             (* pattern -> strings it matches (from `re`) *)
@@ -18,6 +18,14 @@ Definition run_elem_case (c : ecase) : list nat :=
     if str_eqb (tag_of mine) (tag_of (snd ve))
     then (if json_eqb mine (snd ve) then [] else [3%nat])
     else [2%nat]) (ec_vals c)).
+
+(* C04: the codes of run_elem_case, plus 9 when every value of the case satisfies the premise of
+   C04_complete (Retr.safeb, sound by C04_premise_checker): there the model result holds every
+   member of the input by theorem *)
+Definition run_elem_case_c04 (c : ecase) : list nat :=
+  run_elem_case c ++
+  (if forallb (fun ve => match fst ve with Some v => safeb 200 (ec_elem c) v | None => true end) (ec_vals c)
+   then [9%nat] else []).
 
 Definition show_elem_case (c : ecase) :=
   let O := tbl_oracles (ec_re c) (ec_fm c) in
